@@ -1,55 +1,13 @@
-"""Per-property configuration of the checks (see DESIGN.md section 6)."""
+"""Per-property configuration of the checks: one file per property in lib/props.d/<id>.py
+defining PROP = {...} (counts per tier, rule, assumptions, partial, optional model_input / extra /
+trusted_base / timeout / shard)."""
+import os
 
-PROPS = {
-    "C09": {
-        "counts": {"quick": 160, "thorough": 6000},
-        "rule": "one case = a WAL program (append/batch/rotate/reopen/read-from) run through pkg/wal and the "
-                "extracted WalCodec model; file bytes (length+CRC), replayed entries, statuses and sequence "
-                "numbers compared; non-trivial = at least 2 entries appended and (a fragmented entry or a "
-                "batch or more than one file); distinct by case text",
-        "trusted_base": [],
-        "assumptions": ["bufio/os deliver the bytes written; file names sort in creation order (UnixNano timestamps)"],
-        "partial": "",
-    },
-    "C01": {
-        "counts": {"quick": 240, "thorough": 12000},
-        "rule": "one case = a sequential program over the embedded API (put/delete/get/ApplyBatch/transaction "
-                "commit+rollback/flush/close+reopen/layer dump) with a small memtable so that data moves through "
-                "active table, immutable tables and SSTables; every Get, the reported last sequence and the "
-                "logical content of every layer are compared with the extracted Engine model; oracle = map replay "
-                "of the acknowledged writes; non-trivial = data in >= 2 kinds of layers and at least one "
-                "overwrite/delete of a key after a flush or reopen; distinct by case text",
-        "assumptions": ["background flush goroutine parked at a verifhook gate (layer placement decided by the "
-                        "program's explicit flushes); age-based memtable switching disabled (MaxMemTableAge=0)"],
-        "partial": "single client; concurrency is C06",
-    },
-    "C08": {
-        "counts": {"quick": 200, "thorough": 10000},
-        "rule": "same programs as C01 weighted to flush (WAL rotation) and reopen; the last sequence reported by "
-                "statistics after every write, after every reopen, and the next WAL sequence are compared with "
-                "the model; oracle = strictly greater after every acknowledged write, never smaller after reopen; "
-                "non-trivial as for C01",
-        "assumptions": ["as C01"],
-        "partial": "",
-    },
-    "C20": {
-        "counts": {"quick": 400, "thorough": 20000},
-        "rule": "one case = a program over one database directory and one in-memory Config (field assignments "
-                "around the validity boundaries, Validate, SaveManifest, LoadConfigFromManifest, tampering with the "
-                "stored manifest: every truncation, every single bit flip, hand-made JSON; NewEngineFacade "
-                "load-or-create with data written before the reopen); outcomes, the loaded configuration field by "
-                "field, and the manifest text (length+CRC-32, scratch root replaced by $R) are compared with the "
-                "extracted Config model; oracle = documented constraints table, save/load equality, nothing written "
-                "on rejection, every strict prefix fails, open fails on an unreadable manifest or on a missing one over "
-                "existing files and otherwise uses the stored WAL directory with earlier data readable; non-trivial = a successful save followed by a "
-                "load, or a rejected save, or a tampering step, or an engine open; distinct by case text",
-        "assumptions": ["compaction_ratio is modelled as the exact decimal of the float64's shortest representation: "
-                        "strconv.FormatFloat(f,-1)/ParseFloat agree with decimal arithmetic on such values (Go's "
-                        "shortest-round-trip guarantee); tampered manifests keep the ratio at <= 15 significant digits",
-                        "file system: os.WriteFile + os.Rename replace MANIFEST atomically; no I/O errors other than "
-                        "'file does not exist'; encoding/json nesting limit (10000) not reached"],
-        "partial": "the engine's use of the loaded configuration is observed through the WAL directory it opens and "
-                   "the readability of earlier data (no public accessor for EngineFacade.cfg; hook VerifConfig requested); "
-                   "pkg/config/manifest.go (unused by the engine) is covered by the oracle only",
-    },
-}
+PROPS = {}
+_d = os.path.join(os.path.dirname(os.path.abspath(__file__)), "props.d")
+for _fn in sorted(os.listdir(_d)):
+    if _fn.endswith(".py"):
+        _g = {}
+        with open(os.path.join(_d, _fn)) as _f:
+            exec(compile(_f.read(), _fn, "exec"), _g)
+        PROPS[_fn[:-3]] = _g["PROP"]
